@@ -100,3 +100,35 @@ Definition is_str (v : value) : bool := match v with VStr _ => true | _ => false
 
 (* all elements numbers (no NaN) or all elements strings: < is a strict weak order on the list *)
 Definition sortable (l : list value) : bool := forallb num_ok l || forallb is_str l.
+
+(* ---------- groupByEqual ---------- *)
+
+(* l.groupByEqual(k->k): the keys of the groups in order of first occurrence.  Every key is compared with the
+   keys of the existing groups, in order, by fg.equal(group key, key); the first true wins, an error ends
+   the whole operation, otherwise the key opens a new group. *)
+Fixpoint in_groups (gs : list value) (k : value) : res bool :=
+  match gs with
+  | [] => Ok false
+  | g :: r => match equal_fg g k with
+              | Ok true => Ok true
+              | Ok false => in_groups r k
+              | e => e
+              end
+  end.
+
+Fixpoint group_keys (gs l : list value) : res (list value) :=
+  match l with
+  | [] => Ok gs
+  | k :: r => match in_groups gs k with
+              | Ok true => group_keys gs r
+              | Ok false => group_keys (gs ++ [k]) r
+              | Err t => Err t | Panic => Panic | OOF => OOF | Unsup => Unsup
+              end
+  end.
+
+(* the number of groups *)
+Definition group_eq_model (l : list value) : res N :=
+  match group_keys [] l with
+  | Ok gs => Ok (N.of_nat (length gs))
+  | Err t => Err t | Panic => Panic | OOF => OOF | Unsup => Unsup
+  end.
